@@ -285,6 +285,26 @@ def rule_e(ctx):
                 kinds.add(fmt_term(p.value.term)[:40])
         ok = kinds == {'none', 'InternalBackPressurePublisher', 'BackPressurePublisher'} or \
             kinds == {'observable', 'InternalBackPressurePublisher', 'BackPressurePublisher'}
+        # ... and which case gives which: decided per path from the tests on the argument
+        arg = ('param', o2p.qualname, o2p.params()[0])
+        for p in ps:
+            if p.outcome != 'return':
+                continue
+            is_none = is_factory = None
+            for e in p.events:
+                if e.kind != 'cond':
+                    continue
+                kk = strip_epoch(e.data['key'])
+                if kk[0] == 'isnone' and kk[1] == arg:
+                    is_none = bool(e.data['value'])
+                elif kk[0] == 'isinstance' and kk[1] == arg and 'Factory' in repr(kk[2]):
+                    is_factory = bool(e.data['value'])
+            kind = 'none' if (p.value.is_const() and p.value.const is None) or strip_epoch(p.value.term) == arg else \
+                getattr(next(iter(p.value.types)), 'name', '?') if p.value.types else '?'
+            want = 'none' if is_none else 'InternalBackPressurePublisher' if is_factory else \
+                'BackPressurePublisher' if is_factory is False else None
+            if is_none is None or want is None or kind != want:
+                ok = False
         rep.add('C20.e', '%s observable_to_publisher / three cases' % pkg, o2p, ok,
                 'None -> None; back-pressure factory -> feedback publisher; plain observable -> buffering publisher'
                 if ok else 'observable_to_publisher returns %s' % sorted(kinds))
